@@ -218,5 +218,21 @@ META.update({
     },
 })
 
-NOT_APPLICABLE = {p: "check not built yet in this round (see DESIGN.md §4 for the plan)" for p in
-                  ["C20"]}
+META.update({
+    "C20": {
+        "text": "Partial proof: Raw is modelled as backing array + length, so 'allocated for Raw' is 'the array had to grow'. "
+                "Theorems (all inputs, all setter lists, any earlier state of the object): decoding through every copying "
+                "entry point into an object that was used for a message at least as large never moves Raw (and does "
+                "otherwise: the accounting is exact); ReadFrom never does; a Build whose result fits the capacity the "
+                "object has never moves Raw at any step, including builds that stop at a failing setter; the integrity "
+                "check allocates iff the attribute is present and fewer than 20 bytes are spare - so the full statement "
+                "is FALSE there (known finding F9, witness theorem). Everything else the property names (Attributes "
+                "slice, getter destinations, escape analysis, HMAC pool) is measured with testing.AllocsPerRun on every "
+                "generated message and compared with the model's accounting.",
+        "note": PROOF_NOTE + "Modelled, not verified: capacity of Attributes and getter destinations, Go escape analysis, "
+                "interface boxing, sync.Pool. F10 (keys > 64 bytes allocated in resetTo) was repaired in /repo (ae2654f).",
+        "technique": "Lean 4 capacity theorems (induction over setter lists) + AllocsPerRun correspondence on generated messages",
+    },
+})
+
+NOT_APPLICABLE = {}
